@@ -425,7 +425,7 @@ def floordiv(x, y, out=None, out_like=None, sizing='optimal', method='raw', **kw
         _floordiv_raw = _floordiv_raw_complex
 
     signed = x.signed or y.signed
-    n_int = x.n_int + y.n_frac + signed
+    n_int = max(x.n_int + y.n_frac + signed, 0)     # (a quotient below 1 in magnitude still needs a valid word)
     n_frac = 0
     n_word = int(signed) + n_int + n_frac
     optimal_size = (signed, n_word, n_int, n_frac)
